@@ -29,6 +29,8 @@ def replay_words(spec, inputs, workdir):
         "fxmul": ("sexp_bignum_fxmul(ctx, NULL, a, %dUL, 0)" % w, lambda: ("mag", abs(va) * w)),
         "normalize": ("sexp_bignum_normalize(a)", lambda: ("val", va)),
         "sexp_add": None, "sexp_sub": None,
+        "sexp_quotient_fixbig": ("sexp_quotient(ctx, sexp_make_fixnum(%dL), b)" % f, lambda: ("canon", int(abs(f) / abs(vb)) * (1 if (f < 0) == (vb < 0) else -1) if vb else 0)),
+        "sexp_remainder_fixbig": ("sexp_remainder(ctx, sexp_make_fixnum(%dL), b)" % f, lambda: ("canon", (f - vb * (int(abs(f) // abs(vb)) * (1 if (f < 0) == (vb < 0) else -1))) if vb else 0)),
     }
     if grp in ("sexp_add", "sexp_sub"):
         x = "a" if d.get("KA", 1) else "sexp_make_fixnum(%dL)" % f
@@ -146,6 +148,12 @@ for nm in ("sexp_add", "sexp_sub"):
     GROUPS.append(dict(WORDS, name=nm, entry="h_" + nm, functions=["bignum.c:" + nm + "(exact integer operands)", "bignum.c:sexp_number_type"],
                        bound=BOUND2 + "; operand kinds fixnum/bignum enumerated", instances=kinds(nm),
                        stubs=WORDS["stubs"] + ["sexp_ratio_add", "sexp_complex_add", "sexp_complex_sub", "sexp_ratio_to_double", "sexp_bignum_to_double", "sexp_number_type", "sexp_bignum_fxadd", "sexp_bignum_fxsub"]))
+for nm in ("sexp_quotient", "sexp_remainder"):
+    GROUPS.append(dict(WORDS, name=nm + "_fixbig", entry="h_" + nm + "_fixbig", functions=["bignum.c:" + nm + "(fixnum by bignum)", "bignum.c:sexp_number_type"],
+                       bound="bignum divisor shapes (L,H) enumerated: quick L<=2, thorough L<=3; the fixnum dividend, the divisor's words and sign symbolic",
+                       instances=[{"name": "b%d_%d" % (lb, hb), "defs": {"LA": 1, "HA": 1, "LB": lb, "HB": hb}, "tiers": ["quick", "thorough"] if (lb, hb) in Q else ["thorough"]} for (lb, hb) in T],
+                       unwindset=WORDS["unwindset"] + ",sexp_quotient:2,sexp_remainder:2",
+                       stubs=WORDS["stubs"] + ["sexp_number_type", "sexp_bignum_quotient", "sexp_bignum_remainder", "sexp_bignum_fxrem", "sexp_double_to_bignum", "sexp_to_inexact"]))
 def replay_repr(spec, inputs, workdir):
     hi, lo = int(inputs.get("in_hi", 0)), int(inputs.get("in_lo", 0))
     x = (hi << 64) | lo
